@@ -171,15 +171,15 @@ func (g *generator) buildMethod(genMethod *generatedMethod, context map[string]*
 		case method.ArgUseContext:
 			name := ctx.Name("context")
 			ctx.Context[arg.Type.String] = xtype.VariableID(jen.Id(name))
-			args = append(args, jen.Id(name).Add(arg.Type.TypeAsJen()))
+			args = append(args, jen.Id(name).Add(argType(arg)))
 		case method.ArgUseSource:
 			name := ctx.Name("source")
 			sourceID = xtype.VariableID(jen.Id(name))
-			args = append(args, jen.Id(name).Add(arg.Type.TypeAsJen()))
+			args = append(args, jen.Id(name).Add(argType(arg)))
 		case method.ArgUseTarget:
 			name := ctx.Name("target")
 			targetAssign = jen.Id(name)
-			args = append(args, jen.Id(name).Add(arg.Type.TypeAsJen()))
+			args = append(args, jen.Id(name).Add(argType(arg)))
 		case method.ArgUseMultiSource:
 			panic("multi source aren't supported right now. https://github.com/jmattheis/goverter/issues/143")
 		}
@@ -333,13 +333,31 @@ func (g *generator) CallMethod(
 		}
 
 		stmt := []jen.Code{
-			jen.List(jen.Id(name), jen.Id("err")).Op(":=").Add(qual.Call(params...)),
+			jen.List(jen.Id(name), jen.Id("err")).Op(":=").Add(qual.Call(callParams(definition, params)...)),
 			jen.If(jen.Id("err").Op("!=").Nil()).Block(ret),
 		}
 		return stmt, xtype.VariableID(jen.Id(name)), nil
 	}
-	id := xtype.OtherID(qual.Call(params...))
+	id := xtype.OtherID(qual.Call(callParams(definition, params)...))
 	return nil, id, nil
+}
+
+// argType returns the type of a parameter as it is written in a signature.
+func argType(arg method.Arg) *jen.Statement {
+	if arg.Variadic && arg.Type.List && !arg.Type.ListFixed {
+		return jen.Op("...").Add(arg.Type.ListInner.TypeAsJen())
+	}
+	return arg.Type.TypeAsJen()
+}
+
+// callParams passes the slice given for a variadic parameter as x...
+func callParams(definition *method.Definition, params []jen.Code) []jen.Code {
+	n := len(definition.RawArgs)
+	if n == 0 || n != len(params) || !definition.RawArgs[n-1].Variadic {
+		return params
+	}
+	last := jen.Add(params[n-1]).Op("...")
+	return append(append([]jen.Code{}, params[:n-1]...), last)
 }
 
 func (g *generator) ReturnError(ctx *builder.MethodContext, errPath builder.ErrorPath, id *jen.Statement) (jen.Code, bool) {
@@ -421,7 +439,7 @@ func (g *generator) delegateMethod(
 
 	current := g.lookup.ByID(ctx.IndexID)
 
-	returns := []jen.Code{g.qualMethod(delegateTo).Call(params...)}
+	returns := []jen.Code{g.qualMethod(delegateTo).Call(callParams(delegateTo, params)...)}
 
 	if delegateTo.ReturnError {
 		if !current.ReturnError {
